@@ -270,6 +270,36 @@ func ruleMakeSizes(rule string) func(*Ctx) {
 			k := 0
 			for _, b := range f.Blocks {
 				for _, in := range b.Instrs {
+					// slices.Grow(s, n) panics on a negative n exactly like make on a negative size
+					if gc, isCall := in.(*ssa.Call); isCall {
+						if g := gc.Call.StaticCallee(); g != nil && len(gc.Call.Args) == 2 {
+							gn, gp := g.Name(), ""
+							if o := g.Origin(); o != nil {
+								gn = o.Name()
+								if o.Pkg != nil {
+									gp = o.Pkg.Pkg.Path()
+								}
+							} else if g.Pkg != nil {
+								gp = g.Pkg.Pkg.Path()
+							}
+							if gp == "slices" && gn == "Grow" {
+								k++
+								n++
+								iv := bound(gc.Call.Args[1], b, 0, map[ssa.Value]bool{})
+								badg := ""
+								if !(iv.lo >= 0) {
+									src := "can be negative"
+									if fromFloat(gc.Call.Args[1], 0) {
+										src = "comes from an unchecked float->int conversion (NaN/Inf/huge values convert to an arbitrary integer)"
+									}
+									badg = fmt.Sprintf("slices.Grow(_, %s): lower bound %v — %s", exprOf(gc.Call.Args[1]), iv.lo, src)
+								}
+								c.check(badg == "", rule, fmt.Sprintf("%s:%s:grow#%d", rule, fn, k), gc.Pos(), fn,
+									"the size handed to slices.Grow is provably >= 0", badg,
+									"slices.Grow panics on a negative size: an exported function must return normally for every in-range input")
+							}
+						}
+					}
 					ms, ok := in.(*ssa.MakeSlice)
 					if !ok {
 						continue
